@@ -2,7 +2,26 @@
 
 package minersc
 
+import cstate "0chain.net/chaincore/chain/state"
+
 // VerifUnitchainReduce exposes SimpleNodes.reduce (view-change node selection) to the verification harness.
 func VerifUnitchainReduce(sns SimpleNodes, limit int, xPercent float64, pmbrss int64, pmbnp Pooler) int {
 	return sns.reduce(limit, xPercent, pmbrss, pmbnp)
+}
+
+// VerifUnitchainDKGStart builds a DKG miners list the way createDKGMinersForContribute does at DKG start: the limits are
+// snapshotted by calculateTKN(gn, n), then the candidates are put in.
+func VerifUnitchainDKGStart(gn *GlobalNode, n int, sns SimpleNodes) *DKGMinerNodes {
+	d := NewDKGMinerNodes()
+	d.calculateTKN(gn, n)
+	for k, v := range sns {
+		d.SimpleNodes[k] = v
+	}
+	return d
+}
+
+// VerifUnitchainReduceNodes exposes DKGMinerNodes.reduceNodes (the selection step of widdleDKGMinersForShare,
+// createMagicBlockForWait and adjustViewChange).
+func VerifUnitchainReduceNodes(d *DKGMinerNodes, final bool, gn *GlobalNode, balances cstate.StateContextI) error {
+	return d.reduceNodes(final, gn, balances)
 }
